@@ -169,7 +169,7 @@ public:
       if (top == 0)
         return false;
     } while (!count.compare_exchange_weak(top, top - 1));
-    datac.destroy(top);
+    datac.destroy(top - 1);
     return true;
   }
 
